@@ -200,6 +200,9 @@ class kFlowDecomp(pathmodel.AbstractPathModelDAG):
         # We can apply the greedy algorithm only if 
         # - there are no edges to ignore (in the original input graph), and 
         # - the graph satisfies flow conservation
+        if self.subpath_constraints is not None and len(self.subpath_constraints) > 0:
+            # the greedy algorithm below looks up the constraint edges in the graph, so they must be validated first
+            self._check_valid_subpath_constraints()
         if self.optimize_with_greedy and len(edges_to_ignore_internal) == 0 and satisfies_flow_conservation:
             if self._get_solution_with_greedy():
                 greedy_solution_paths = self._solution["paths"]
